@@ -684,7 +684,7 @@ namespace
                 {
                     if (res->is<t_boolean>())
                     {
-                        if (res->data<d_boolean, bool>())
+                        if (res->data<d_boolean, bool>() && m_index < m_array->size())
                         {
                             m_out.push_back(m_array->at(m_index));
                         }
